@@ -284,5 +284,102 @@ fn run_inner(input: &[u8], rec: &mut Rec) {
                 Err(p) => rec.push_s(&format!("panic.mut_ids.{}", idx), &p),
             }
         }
+        // a visitor that writes: every type id it is handed is replaced by a marker type; an immutable
+        // traversal afterwards must see the marker wherever it saw a type before (function left as it was
+        // afterwards by writing the old ids back in the same order)
+        {
+            struct Rewrite {
+                to: TypeId,
+                old: Vec<TypeId>,
+            }
+            impl VisitorMut for Rewrite {
+                fn visit_type_id_mut(&mut self, x: &mut TypeId) {
+                    self.old.push(*x);
+                    *x = self.to;
+                }
+            }
+            struct Restore {
+                old: std::collections::VecDeque<TypeId>,
+            }
+            impl VisitorMut for Restore {
+                fn visit_type_id_mut(&mut self, x: &mut TypeId) {
+                    if let Some(o) = self.old.pop_front() {
+                        *x = o;
+                    }
+                }
+            }
+            struct CountTypes {
+                marker: TypeId,
+                total: u64,
+                marked: u64,
+            }
+            impl<'i> Visitor<'i> for CountTypes {
+                fn visit_type_id(&mut self, x: &TypeId) {
+                    self.total += 1;
+                    if *x == self.marker {
+                        self.marked += 1;
+                    }
+                }
+            }
+            let marker = m.types.add(&[ValType::F64, ValType::F64, ValType::F64, ValType::F32], &[ValType::F64, ValType::F32]);
+            let r = guarded(|| {
+                let fm = m.funcs.get_mut(*fid).kind.unwrap_local_mut();
+                let e = fm.entry_block();
+                let mut before = CountTypes { marker, total: 0, marked: 0 };
+                dfs_in_order(&mut before, fm, e);
+                let mut w = Rewrite { to: marker, old: vec![] };
+                dfs_pre_order_mut(&mut w, fm, e);
+                let mut after = CountTypes { marker, total: 0, marked: 0 };
+                dfs_in_order(&mut after, fm, e);
+                let handed = w.old.len() as u64;
+                let mut back = Restore { old: w.old.into_iter().collect() };
+                dfs_pre_order_mut(&mut back, fm, e);
+                (before.total, before.marked, handed, after.total, after.marked)
+            });
+            match r {
+                Ok((bt, bm, handed, at, am)) => rec.push_s(&format!("rewrite.{}", idx), &format!("{} {} {} {} {}", bt, bm, handed, at, am)),
+                Err(p) => rec.push_s(&format!("panic.rewrite.{}", idx), &p),
+            }
+        }
+        // instructions after a terminator: `unreachable` put in front of every sequence through the public API
+        // (everything behind it stays part of the function and has to be visited)
+        {
+            struct Seqs(Vec<InstrSeqId>);
+            impl<'i> Visitor<'i> for Seqs {
+                fn start_instr_seq(&mut self, s: &'i InstrSeq) {
+                    self.0.push(s.id());
+                }
+            }
+            let r = guarded(|| {
+                let fm = m.funcs.get_mut(*fid).kind.unwrap_local_mut();
+                let e = fm.entry_block();
+                let mut sq = Seqs(vec![]);
+                dfs_in_order(&mut sq, fm, e);
+                for s in &sq.0 {
+                    fm.builder_mut().instr_seq(*s).instr_at(0, Unreachable {});
+                }
+                sq.0.len()
+            });
+            match r {
+                Ok(n) => {
+                    rec.push_n(&format!("term.seqs.{}", idx), n as u64);
+                    let cx3 = Ctx { types: &types, ids: &ids, locals: &locals };
+                    let f = m.funcs.get(*fid).kind.unwrap_local();
+                    let mut v = ImmAll(Recorder::new(&cx3));
+                    match guarded(|| dfs_in_order(&mut v, f, f.entry_block())) {
+                        Ok(()) => rec.push_s(&format!("imm_all_term.{}", idx), &v.0.out),
+                        Err(p) => rec.push_s(&format!("panic.imm_all_term.{}", idx), &p),
+                    }
+                    let mut v = MutAll(Recorder::new(&cx3));
+                    let fm = m.funcs.get_mut(*fid).kind.unwrap_local_mut();
+                    let e = fm.entry_block();
+                    match guarded(|| dfs_pre_order_mut(&mut v, fm, e)) {
+                        Ok(()) => rec.push_s(&format!("mut_all_term.{}", idx), &v.0.out),
+                        Err(p) => rec.push_s(&format!("panic.mut_all_term.{}", idx), &p),
+                    }
+                }
+                Err(p) => rec.push_s(&format!("panic.term.{}", idx), &p),
+            }
+        }
     }
 }
